@@ -3,7 +3,7 @@ use std::convert::{TryFrom, TryInto};
 use std::fmt;
 use std::fmt::{Debug, Formatter};
 
-use chrono::{DateTime, FixedOffset, Utc};
+use chrono::{FixedOffset, TimeZone, Utc};
 use itertools::Itertools;
 use lazy_static::lazy_static;
 
@@ -154,18 +154,21 @@ fn length(args: &[data::Value]) -> Result<data::Value, EvalError> {
 
 fn parse_date(date_str: &str) -> Result<data::Value, EvalError> {
     dtparse::parse(date_str)
-        .map(|pair| {
-            data::Value::DateTime(
-                DateTime::<FixedOffset>::from_naive_utc_and_offset(
-                    pair.0,
-                    pair.1.unwrap_or_else(|| FixedOffset::west_opt(0).unwrap()),
-                )
-                .into(),
-            )
-        })
         .map_err(|parse_err| EvalError::FunctionFailed {
             name: "parseDate",
             msg: format!("{}", parse_err),
+        })
+        .and_then(|(local, offset)| {
+            // dtparse gives the time as written plus the UTC offset that was written after it
+            offset
+                .unwrap_or_else(|| FixedOffset::west_opt(0).unwrap())
+                .from_local_datetime(&local)
+                .single()
+                .map(|dt| data::Value::DateTime(dt.into()))
+                .ok_or_else(|| EvalError::FunctionFailed {
+                    name: "parseDate",
+                    msg: format!("date out of range -- {}", date_str),
+                })
         })
 }
 
